@@ -26,6 +26,10 @@ impl<'a> WireFormat<'a> for DS<'a> {
     where
         Self: Sized,
     {
+        if *position + 4 > data.len() {
+            return Err(crate::SimpleDnsError::InsufficientData);
+        }
+
         let key_tag = u16::from_be_bytes(data[*position..*position + 2].try_into()?);
         *position += 2;
 
